@@ -689,6 +689,11 @@ func extractC07(c *Ctx) {
 		{"parser.parseLitMatcher", "acc_rt_lit.txt"},
 		{"parser.parseCharClassMatcher", "acc_rt_class.txt"},
 		{"parser.read", "acc_rt_read.txt"},
+		{"parser.restore", "acc_rt_restore.txt"},
+		{"parser.parseRule", "acc_rt_rule.txt"},
+		{"parser.getMemoized", "acc_rt_getmemo.txt"},
+		{"parser.setMemoized", "acc_rt_setmemo.txt"},
+		{"Memoize", "acc_rt_memoize_option.txt"},
 	} {
 		if s, ok := FuncSrc(zfset, zf, fn.name); ok {
 			c.Expect(fn.file, s)
